@@ -1271,7 +1271,24 @@ func TestVerif_C03_cancelenum(t *testing.T) {
 				limit = 300
 			}
 			if len(pick) > limit {
-				pick = pick[:limit]
+				// the tail of the run (follow-up phase, last replies, hand-over of the result) is where a return races with
+				// the operation's own workers: three of the instants are exact boundaries of the last third of the run
+				tail := len(bounds) - (len(bounds)+2)/3
+				var front []cand
+				for _, p := range pick {
+					if len(front) < 3 && p.d == 0 && p.i >= tail {
+						front = append(front, p)
+					}
+				}
+				for _, p := range pick {
+					if len(front) >= limit {
+						break
+					}
+					if !(p.d == 0 && p.i >= tail && len(front) > 0 && (p == front[0] || (len(front) > 1 && p == front[1]) || (len(front) > 2 && p == front[2]))) {
+						front = append(front, p)
+					}
+				}
+				pick = front
 			}
 			c.Set("boundaries", len(bounds))
 			hits, hot := 0, 0
